@@ -65,6 +65,10 @@ TrDefOp ==
                 /\ Clause("C13." \o e.c.op \o ".state", PostHas(e.h) /\ PostOf(e.h) = r.d)
                 /\ Clause("C13." \o e.c.op \o ".fresh", e.fresh_eq)
                 /\ Clause("C13." \o e.c.op \o ".rows", e.shape_ok)
+                (* shape and fill_ratio of the live object after the call (read after EVERY call) *)
+                /\ Clause("C14." \o e.c.op \o ".shape", e.dshape = Shape(r.d))
+                /\ Clause("C14." \o e.c.op \o ".fill_ratio",
+                          e.dshape[1] * e.dshape[2] = 0 \/ e.dfill[1] * FillRatio(r.d)[2] = FillRatio(r.d)[1] * e.dfill[2])
                 /\ Clause("C14." \o e.c.op \o ".frame", Frame({e.h}))
                 (* the same condition as a clause of C13: every OTHER definition's own history contains no
                    edit here, so its triple must still be what its model says *)
